@@ -2,6 +2,7 @@ package main
 
 import (
 	"fmt"
+	"go/ast"
 	"go/constant"
 	"go/types"
 	"math/big"
@@ -105,6 +106,33 @@ func (w *World) resolveType(text string, ctx *types.Package) (types.Type, error)
 			return nil, err
 		}
 		return types.NewPointer(t), nil
+	}
+	if strings.HasPrefix(text, "map[") {
+		// map[K]V
+		depth, k := 0, -1
+		for i, c := range text {
+			if c == '[' {
+				depth++
+			} else if c == ']' {
+				depth--
+				if depth == 0 {
+					k = i
+					break
+				}
+			}
+		}
+		if k < 0 {
+			return nil, fmt.Errorf("bad map type %q", text)
+		}
+		kt, err := w.resolveType(text[4:k], ctx)
+		if err != nil {
+			return nil, err
+		}
+		vt, err := w.resolveType(text[k+1:], ctx)
+		if err != nil {
+			return nil, err
+		}
+		return types.NewMap(kt, vt), nil
 	}
 	if strings.HasPrefix(text, "[]") {
 		t, err := w.resolveType(text[2:], ctx)
@@ -344,6 +372,34 @@ func (e *specEnv) ident(name string) specVal {
 			}
 		}
 	}
+	// plain local variables (SSA registers), through debug references; the variable must denote one value
+	{
+		var found ssa.Value
+		ambiguous := false
+		for _, b := range fn.Blocks {
+			for _, ins := range b.Instrs {
+				if dr, ok := ins.(*ssa.DebugRef); ok && !dr.IsAddr {
+					if id, ok := dr.Expr.(*ast.Ident); ok && id.Name == name {
+						if _, have := e.fr.vals[dr.X]; !have {
+							if _, isC := dr.X.(*ssa.Const); !isC {
+								continue
+							}
+						}
+						if found != nil && found != dr.X {
+							ambiguous = true
+						}
+						found = dr.X
+					}
+				}
+			}
+		}
+		if found != nil && !ambiguous {
+			return specVal{V: v.value(e.fr, found), T: found.Type()}
+		}
+		if ambiguous {
+			panic(specErr("local variable %q denotes several values in %s; name a phi or use a parameter", name, FuncKey(fn)))
+		}
+	}
 	// package scope
 	if pkg := e.pkgOfFn(); pkg != nil {
 		if o := pkg.Scope().Lookup(name); o != nil {
@@ -371,6 +427,9 @@ func (e *specEnv) object(o types.Object) specVal {
 		g, ok := v.w.Prog.Package(ob.Pkg()).Members[ob.Name()].(*ssa.Global)
 		if !ok {
 			panic(specErr("global %s not found", ob.Name()))
+		}
+		if c, ok := v.w.ConstGlobals()[g]; ok {
+			return specVal{V: v.constVal(c), T: ob.Type()}
 		}
 		addr := Sc{v.globalAddr(g)}
 		if kindOf(ob.Type()) == kStruct {
@@ -557,6 +616,14 @@ func (e *specEnv) binary(b SBin) specVal {
 		}
 		if r.Nil {
 			return neg(e.nilCompare(l))
+		}
+		// implicit conversion of a concrete operand when compared with an interface value
+		if _, li := l.V.(IfaceV); li {
+			if _, ri := r.V.(IfaceV); !ri && r.T != nil {
+				r = specVal{V: v.makeIface(r.V, r.T), T: l.T}
+			}
+		} else if _, ri := r.V.(IfaceV); ri && l.T != nil {
+			l = specVal{V: v.makeIface(l.V, l.T), T: r.T}
 		}
 		return neg(v.equal(l.V, r.V, l.T, r.T))
 	case "in":
